@@ -108,7 +108,11 @@ impl InkList {
             let mut names = Vec::new();
 
             for k in self.items.keys() {
-                names.push(k.get_origin_name().unwrap().clone());
+                // An item that does not name its list (e.g. from a hand-written
+                // or older story file) simply contributes no origin.
+                if let Some(origin_name) = k.get_origin_name() {
+                    names.push(origin_name.clone());
+                }
             }
 
             return names;
